@@ -113,6 +113,11 @@ class Pool:
             t = getattr(o, 'type_', -1)
             p = {'id': i, 'k': kind, 't': 0 if t == -1 else t, 'n': bs['n'], 'y': bs['y'],
                  'r': [self.cell_id(r) for r in refs], 'd': 0}
+            # what the object itself reports about its room (read through the public properties)
+            if kind == 'builder':
+                p['room'] = [o.used_bits, o.available_bits, o.available_bytes, o.available_refs]
+            elif kind == 'slice':
+                p['room'] = [o.remaining_bits, o.remaining_refs]
             if kind == 'cell':
                 p['d'] = o.get_depth(3)
                 p['h'] = list(o.hash)
